@@ -21,7 +21,7 @@ ASSUMPTIONS = ['a cell is "malformed" when a fresh importer of its spine type re
 
 UNKNOWN = ['4zz#', '4c%', '@@', '4h', '4c!', '=x=', '*clefQ9', 'wxyz']
 ORDER = ['#c4', 'c#4#', '-4c-r', '4#c', 'r4c']
-TRUNC = ['*k[f#', '*M4', '*clef', '8..', '4', '*xywh-1:1,2,3', '*MM', '(']
+TRUNC = ['*k[f#', '*M4', '*clef', '8..', '4', '*xywh-1:1,2,3', '*MM', '(', '8rL 8G', '16r 16r[', '4rL', '*xywh-1', '*xywh-1,10,20,300,400', '*xywh-12:10,20;300,400']
 # characters the **kern lexer has no rule for, and base tokens of every kind
 NONLEX = ['\u00a0', '\u2019', '\u00b7', '\u65e5', '\u00df', '\u200b', '\u20ac', '\u201c', '\u00ad']
 BASES = ['4c', '8.dd#L', '*clefG2', '=1', '2r', '4c 4e', '*M4/4', '*k[f#]', '.', '16ee-/', '==', '*k[b-e-]', '4.GG#', '*']   # not '*met(c)': '*' + anything is the silent-shortening class (F3)
